@@ -57,6 +57,8 @@ def build(d, b, rep=1, ra=1):
     ng = len(GX)
     wav = sorted(12.0 / g for g in GX)                      # increasing wavelength; rank w <-> grid node ng - w
     aps = concrete_aps(b, ra)
+    # the unit in which the SEDs / the cube store their aperture radii (it is carried over into the convolved files)
+    apu = ['au', 'pc', 'cm'][(sum(b['tab']) * 3 + b['list'][0] + rep + ra) % 3] if aps is not None else 'au'
     if b['fmt'] == 'perfile':
         ids = [(i, k) for k in range(rep) for i in b['tab']]
         names = [cname(i, k) for i, k in ids]
@@ -71,8 +73,8 @@ def build(d, b, rep=1, ra=1):
             vf = lambda a, w, i=i, k=k: kfac(k) * afac(a) * float(Fl(i, (a % 2) + 1, ng - w))
             ve = lambda a, w, i=i, k=k: kfac(k) * afac(a) * float(Er(i, (a % 2) + 1, ng - w))
             fu = 'nufnu' if (i + k + b['tab'][0]) % 2 else 'mJy'      # SED files hold F_nu in mJy or nu F_nu in erg/cm2/s
-            if sum(b['tab'][:2]) % 2:
-                pw.sed_object(cname(i, k), wav_m, aps, vf, ve, order, flux_unit=fu).write(p)
+            if sum(b['tab'][:2]) % 2 or apu != 'au':
+                pw.sed_object(cname(i, k), wav_m, aps, vf, ve, order, flux_unit=fu, ap_unit=apu).write(p)
             else:
                 pw.write_sed_raw(p, cname(i, k), wav_m, aps, vf, ve, order, legacy_units=bool((i + k) % 2), flux_unit=fu)
         pw.write_parameters(d, names)
@@ -83,7 +85,7 @@ def build(d, b, rep=1, ra=1):
         pw.build_cube(d, [cname(i, k) for i, k in ids], wav, aps,
                       lambda m, a, w: cfac * kfac(ids[m][1]) * afac(a) * float(Fl(ids[m][0], (a % 2) + 1, ng - w)),
                       lambda m, a, w: cfac * kfac(ids[m][1]) * afac(a) * float(Er(ids[m][0], (a % 2) + 1, ng - w)), order=b['stored'][0],
-                      aperture_dependent=(b['na'] > 1), table_names=[cname(i, k) for k in range(rep) for i in b['tab']], flux_unit=cunit)
+                      aperture_dependent=(b['na'] > 1), table_names=[cname(i, k) for k in range(rep) for i in b['tab']], flux_unit=cunit, ap_unit=apu)
 
 
 def history_between(d):
